@@ -357,6 +357,43 @@ def run(F, tier, res):
                         else:
                             res.violate('KEYS', 'builder=%s;key=%s' % (bp, ks[0]), 'style key %r is built from opt.%s' % (ks[0], sorted(flds)), where=F.bodies[bp]['mir']['span']['at'])
         res.rule('C12.KEYS', nk, 40, 'Config Style fields read from styles["k"] and builder pairs ("k", style_from_str(&opt.f)) with k == kebab(field)', discharged=okk)
+    # ---------- TRUECOLOR: sibling agreement on the colour-depth argument
+    # every function with a parameter named `true_color` is a colour-depth consumer; every call to one must pass a value that
+    # derives from the computed true_color option (or the caller's own true_color parameter). Constants are allowed only at the
+    # frozen sites below (one reason each).
+    TC_CONST_OK = {
+        'parse_styles::parse_as_style_or_reference_to_git_config': 'styles referenced from git config are parsed as 24-bit (existing behaviour)',
+        'handlers::blame::<impl delta::StateMachine<\'_>>::blame_metadata_style': 'blame palette colours are parsed as 24-bit (existing behaviour)',
+        'parse_style::<impl style::Style>::from_git_str': 'styles coming from git\'s own configuration/defaults are parsed as 24-bit (existing behaviour)',
+    }
+    consumers = {}
+    for q, b in F.fn_bodies.items():
+        for nm in b['mir']['names']:
+            if nm[0] == 'true_color' and not nm[1]['p'] and 1 <= nm[1]['l'] <= b['mir']['arg_count'] and b['mir']['locals'][nm[1]['l']] == 'bool':
+                consumers[q] = nm[1]['l']
+    ntc = oktc = 0
+    for q in sorted(F.fn_bodies):
+        if q.startswith('subcommands::') or '::tests::' in q:
+            continue
+        for i, c in F.calls(q):
+            r = callee_of(c)
+            if r not in consumers or consumers[r] - 1 >= len(c['args']):
+                continue
+            ntc += 1
+            a = c['args'][consumers[r] - 1]
+            roots = F.trace(q, a)
+            derived = any(rr[0] == 'param' and ((rr[2] and rr[2][-1] == 'true_color') or (q in consumers and rr[1] == consumers[q]) or
+                                              (F.bodies[q]['kind'] == 'Closure')) for rr in roots) or any(
+                rr[0] == 'call' for rr in roots)
+            is_const = 'const' in a or any(rr[0] == 'const' for rr in roots) and not derived
+            if derived and not is_const:
+                oktc += 1
+            elif q in TC_CONST_OK or q.rsplit('::{closure', 1)[0] in TC_CONST_OK:
+                oktc += 1
+            else:
+                res.violate('TRUECOLOR', 'fn=%s;callee=%s' % (q, r.split('::')[-1]), 'a style/colour parser is called with a constant colour depth instead of the computed true_color setting '
+                            '(its sibling call sites pass the setting): in 256-colour mode these styles are emitted as 24-bit colours', where=F.span_of_call(c))
+    res.rule('C12.TRUECOLOR', ntc, 40, 'calls to functions with a `true_color` parameter; each passes the computed setting (frozen constant sites: %d)' % len(TC_CONST_OK), discharged=oktc)
     # determinism of printed names
     sites = [s for s in e4.analyse(F, [D])]
     for s in sites:
